@@ -222,7 +222,7 @@ class Evaluator:
             raise _Continue()
         elif isinstance(s, ast.Return):
             raise _Return(self.ev(s.value, env) if s.value is not None else None)
-        elif isinstance(s, ast.Pass):
+        elif isinstance(s, (ast.Pass, ast.Import, ast.ImportFrom, ast.Global)):
             return
         elif isinstance(s, ast.Raise):
             raise Raised(norm(s)[:80])
